@@ -214,7 +214,12 @@ def run_jax(R, args):
         bad = not np.all(np.isfinite(rec)) or bool(np.any(np.abs(rec - M) > 1e-7 * scale + 1e-300))
         return bool(bad), f"reconstruction {rec.tolist()} vs M {M.tolist()} (B={B.tolist()})"
 
-    pre = []
+    # "asked for as many vectors as the rank": rank(M) = rank(B) = r, i.e. det(B^T B) != 0 (on the measure-zero set where B loses rank
+    # the routine is asked for MORE vectors than the rank and divides 0/0, which is outside the statement)
+    qdom.reset()
+    Bq = [[Q(P.var(Bn[i][j])) for j in range(r)] for i in range(n)]
+    gram = [[sum((Bq[i][a_] * Bq[i][b_] for i in range(1, n)), Bq[0][a_] * Bq[0][b_]) for b_ in range(r)] for a_ in range(r)]
+    pre = [qdom.tz(qdom.det(gram).c[0]) != 0]
     ex = Explorer(pre=pre, max_paths=500, variables=variables)
     k = 0
     for pc, (outs, M, dM) in ex.paths(body):
